@@ -222,6 +222,10 @@ func Run(t *testing.T, cfg Config, body func(s *Sim)) (res *Result) {
 		if r := recover(); r != nil {
 			if s.AllowLeak && strings.Contains(fmt.Sprint(r), "blocked goroutines remain") {
 				s.probes["kernel.leaked_goroutines_at_teardown"]++
+			} else if len(s.viol) > 0 && strings.Contains(fmt.Sprint(r), "blocked goroutines remain") {
+				// the run ended on a violation: calls that never return, handlers stuck for good are what was
+				// reported, and they are still there at the end
+				s.probes["kernel.goroutines_left_blocked_by_a_violating_run"]++
 			} else {
 				res.Harness = fmt.Sprintf("bubble panic: %v", r)
 			}
